@@ -577,6 +577,14 @@ func (env *cenv) call(e *CExpr) cval {
 			env.fail("timescalled: the function has no foreach clause")
 		}
 		return env.intv(fmt.Sprintf("(select %s %s)", g.get(env.cur, feCalls), k.term))
+	case "strof":
+		// strof(b): the string a []byte converts to (string(b)) in the current state
+		a := env.eval(args[0])
+		if a.sort != "Slice" || a.typ == nil || !isByteSlice(a.typ) {
+			env.fail("strof needs a []byte, got %s", args[0])
+		}
+		g.declareFun("str.ofbytes", []string{"Slice", "(Array Int (Array Int Int))"}, "String")
+		return cval{term: fmt.Sprintf("(str.ofbytes %s %s)", a.term, g.get(env.cur, g.elemArr(types.Typ[types.Byte]))), sort: "String", typ: types.Typ[types.String]}
 	case "totallen":
 		// totallen(s): the sum of the lengths of the elements of a []string
 		a := env.eval(args[0])
